@@ -327,8 +327,8 @@ class Inliner:
         return None
 
     # ------------------------------------------------------------------ expansion of one call
-    def _bind(self, fn, call, self_expr, host_names):
-        """(prologue statements, substituted deep copy of the body) or None"""
+    def _bind(self, fn, call, self_expr, host_names, prefer=None):
+        """(prologue statements, substituted deep copy of the body) or None; `prefer` maps a helper local to the name it shall take"""
         a = fn.args
         pos = [x.arg for x in a.posonlyargs + a.args]
         kwonly = [x.arg for x in a.kwonlyargs]
@@ -387,7 +387,9 @@ class Inliner:
                 mapping[p] = new
                 prologue.append(ast.copy_location(ast.Assign(targets=[ast.Name(id=new, ctx=ast.Store())], value=copy.deepcopy(v)), call))
         for loc in stored - set(pos + kwonly):
-            if loc in host_names["all"]:
+            if prefer and loc in prefer:
+                mapping[loc] = prefer[loc]
+            elif loc in host_names["all"] or (prefer and loc in prefer.values()):
                 mapping[loc] = loc + tag
         body = [copy.deepcopy(st) for st in fn.body]
         if body and isinstance(body[0], ast.Expr) and isinstance(body[0].value, ast.Constant) and isinstance(body[0].value.value, str):
@@ -514,9 +516,21 @@ class Inliner:
                     elif kind == "return" and any(isinstance(n, ast.Return) for h in ast.walk(fn) if isinstance(h, ast.Try) for blk in [h.finalbody] for s_ in blk for n in ast.walk(s_)):
                         self.refused[q] = "return in finally"
                     else:
-                        bound = self._bind(fn, call, self_expr, host_names)
+                        prefer = None
+                        if kind == "assign" and len(st.targets) == 1 and isinstance(st.targets[0], ast.Name):
+                            # `x = helper(..)` where the helper builds its result in a local and returns it at the end: the local *is* x
+                            rets = [n for n in _own_nodes(fn) if isinstance(n, ast.Return)]
+                            tgt = st.targets[0].id
+                            if len(rets) == 1 and fn.body and fn.body[-1] is rets[0] and isinstance(rets[0].value, ast.Name):
+                                v_ = rets[0].value.id
+                                arg_names = {n.id for a_ in list(call.args) + [k.value for k in call.keywords] for n in ast.walk(a_) if isinstance(n, ast.Name)}
+                                if v_ in _stores(fn) and v_ not in _params(fn) and tgt not in arg_names and (tgt == v_ or tgt not in _names(fn)):
+                                    prefer = {v_: tgt}
+                        bound = self._bind(fn, call, self_expr, host_names, prefer)
                         if bound is not None:
                             prologue, body = bound
+                            if prefer and body and isinstance(body[-1], ast.Return) and isinstance(body[-1].value, ast.Name) and body[-1].value.id == st.targets[0].id:
+                                body = body[:-1] + [ast.copy_location(ast.Return(value=ast.Name(id=st.targets[0].id, ctx=ast.Load())), st)]
                             if kind == "return":
                                 new = prologue + body + ([] if _always_returns(body) else [ast.copy_location(ast.Return(value=None), st)])
                             else:
@@ -533,6 +547,8 @@ class Inliner:
                                     if kind == "expr":
                                         return [ast.copy_location(ast.Expr(value=v), st)] if isinstance(v, ast.Call) else []
                                     if kind == "assign":
+                                        if len(st.targets) == 1 and isinstance(st.targets[0], ast.Name) and isinstance(v, ast.Name) and v.id == st.targets[0].id:
+                                            return []  # the helper's result local already carries the target's name
                                         return [ast.copy_location(ast.Assign(targets=copy.deepcopy(st.targets), value=v), st)]
                                     if kind == "annassign":
                                         return [ast.copy_location(ast.AnnAssign(target=copy.deepcopy(st.target), annotation=st.annotation, value=v, simple=st.simple), st)]
